@@ -203,6 +203,22 @@ class C09(Property):
             for _ in range(3):
                 s, e = self.rand_range(rng, loc, 3)
                 yield dict(base, kind="sub", s=s, e=e)
+            if loc["parts"][0][2] in (1, -1) and rng.random() < 0.25:
+                # a partial gene: mostly the 3' end is open (the case the code truncates for), sometimes other ends
+                n_parts = len(loc["parts"])
+                fz = [[False, False] for _ in range(n_parts)]
+                rev = loc["parts"][0][2] == -1
+                r = rng.random()
+                if r < 0.6:
+                    fz[n_parts - 1][0 if rev else 1] = True        # 3' end of the last exon
+                elif r < 0.8:
+                    fz[0][1 if rev else 0] = True                  # 5' end of the first exon
+                else:
+                    fz[rng.randrange(n_parts)][rng.randrange(2)] = True
+                total_aa = self.total_len(loc) // 3
+                s = rng.choice([0, max(total_aa - 1, 0), total_aa // 2, total_aa, rng.randrange(0, total_aa + 1)])
+                e = rng.choice([total_aa, total_aa + 1, total_aa + 1, total_aa + 2, total_aa + 7, 0, s + 1])
+                yield dict(base, kind="sub", s=s, e=e, fz=fz)
             s, e = self.rand_range(rng, loc, 3)
             yield dict(base, kind="convert", s=s, e=e)
             s, e = self.rand_range(rng, loc, 1)
@@ -212,6 +228,9 @@ class C09(Property):
                              + [3 * (b // 3) for b in self.borders(loc)])
             yield dict(base, kind="tta", off=off)
             yield dict(base, kind="frameshift", cs=rng.choice([1, 2, 2, 3, 3, 0, 4]), undo=rng.random() < 0.3)
+            if rng.random() < 0.3:   # the qualifier as GenBank text: only its first character counts
+                yield dict(base, kind="frameshift", cs=rng.choice([1, 2, 3]), undo=rng.random() < 0.3,
+                           text=rng.choice(["1", "2", "3", "2 ", "3x", "21", "10", "0", "4", "9", "x", "-1", " 2", "2.0"]))
             aa = total // 3
             ld = rng.choice([0, 0, 1, 2, aa // 2, aa - 1, aa] + [b // 3 for b in self.borders(loc)])
             tl = rng.choice([0, 0, 1, 2, aa - ld - 1, aa - ld, max(aa - ld - 2, 0)])
@@ -307,7 +326,7 @@ class C09(Property):
         from antismash.common.secmet import locations as L
         kind = case["kind"]
         dna = case["dna"]
-        location = common.make_location(case["loc"])
+        location = self.make_fuzzy(case["loc"], case["fz"]) if case.get("fz") else common.make_location(case["loc"])
         seq = Seq(dna)
         gene_extract = str(location.extract(seq))
         out: Dict[str, Any] = {"gene_extract": gene_extract}
@@ -329,6 +348,12 @@ class C09(Property):
                 out["pair"] = [int(static[0]), int(static[1])]
                 out["method_same"] = tuple(static) == tuple(dynamic)
             elif kind == "frameshift":
+                if "text" in case:
+                    try:
+                        out["text_loc"] = common.location_json(
+                            L.frameshift_location_by_qualifier(location, case["text"], undo=case["undo"]))
+                    except Exception as exc:  # pylint: disable=broad-except
+                        out["text_err"] = _err(exc)["err"]
                 if case["undo"]:
                     res = L.frameshift_location_by_qualifier(location, case["cs"], undo=True)
                 else:
@@ -391,6 +416,15 @@ class C09(Property):
         except Exception as exc:  # pylint: disable=broad-except
             out.update(_err(exc))
         return out
+
+    @staticmethod
+    def make_fuzzy(loc: Dict[str, Any], fz: List[List[bool]]) -> Any:
+        """a partial gene: per part [start is `<`, end is `>`] (as NCBI writes genes cut by a contig edge)"""
+        from Bio.SeqFeature import AfterPosition, BeforePosition
+        from antismash.common.secmet.locations import CompoundLocation, FeatureLocation
+        parts = [FeatureLocation(BeforePosition(lo) if before else lo, AfterPosition(hi) if after else hi, strand)
+                 for (lo, hi, strand), (before, after) in zip(loc["parts"], fz)]
+        return CompoundLocation(parts) if loc["c"] else parts[0]
 
     @staticmethod
     def _run_prepeptide_rt(case: Dict[str, Any], location: Any, describe: Any) -> Dict[str, Any]:
@@ -514,12 +548,16 @@ class C09(Property):
         line: Dict[str, Any] = {"loc": case["loc"]}
         if kind in ("sub", "motif", "domain"):
             line.update(kind="sub", s=case["s"], e=case["e"], impl=obs.get("loc"), feature=kind != "sub")
+            if case.get("fz"):
+                line["fz"] = case["fz"]
         elif kind == "offsets":
             line.update(kind="offsets", s=case["s"], e=case["e"], impl=obs.get("loc"))
         elif kind == "convert":
             line.update(kind="convert", s=case["s"], e=case["e"])
         elif kind == "frameshift":
             line.update(kind="frameshift", cs=case["cs"], undo=case["undo"], impl=obs.get("loc"))
+            if "text" in case:
+                line["text"] = case["text"]
         elif kind == "prepeptide":
             line.update(kind="prepeptide", leader=case["leader"], tail=case["tail"],
                         impl_leader=(obs.get("leader") or {}).get("loc"), impl_core=(obs.get("core") or {}).get("loc"),
@@ -590,7 +628,9 @@ class C09(Property):
             elif guard:
                 spec_ok = impl_err is None and covers_ok(spec["covers"], obs, spec["slice"])
                 if spec_ok and kind in ("sub", "motif", "domain"):
-                    s, e = case["s"], case["e"]
+                    s, e = case["s"], drv.get("eff_e", case["e"])     # partial genes: end truncated to the product
+                    if drv.get("truncated"):
+                        tags.append("end-truncated")
                     from Bio.Seq import Seq
                     usable = obs["gene_extract"][:len(obs["gene_extract"]) // 3 * 3]
                     whole = str(Seq(usable).translate())
@@ -611,6 +651,21 @@ class C09(Property):
         elif kind == "frameshift":
             m = self._model_obs(model)
             corr = (impl_err == m) if impl_err is not None else (obs["loc"] == m)
+            if "text" in case:
+                mt = drv["model_text"]
+                same = (obs.get("text_err") == mt.get("err")) if "text_err" in obs else obs.get("text_loc") == mt.get("ok")
+                corr = corr and same
+                tags.append("text-" + ("refused" if "err" in mt else "ok"))
+                first = case["text"][:1]
+                if first in ("1", "2", "3"):
+                    # the text form means the same as its first digit
+                    ok_text = ("text_loc" in obs) or obs.get("text_err") in ("value-error", "assertion")
+                else:
+                    ok_text = obs.get("text_err") == "value-error"
+                if not ok_text:
+                    detail = f"codon_start text {case['text']!r} handled as {obs.get('text_loc') or obs.get('text_err')}"
+            else:
+                ok_text = True
             if guard:
                 spec_ok = impl_err is None and spec["shifted"] is True and obs["text_same"]
                 back = drv["back"] or {}
@@ -629,6 +684,7 @@ class C09(Property):
                         tags.append("undo-refused")
             else:
                 spec_ok = impl_err is not None
+            spec_ok = spec_ok and ok_text
         elif kind == "prepeptide":
             if impl_err is not None:
                 corr = impl_err == model.get("err")
